@@ -101,11 +101,15 @@ def parseVec? (s : String) : Option (List GQ) :=
 structure Sess where
   clmo : List (List Nat) := []
 
+def firstDiff : List Nat → List Nat → Nat → Option (Nat × Nat × Nat)
+  | a :: as, b :: bs, i => if a = b then firstDiff as bs (i + 1) else some (i, a, b)
+  | _, _, _ => none
+
 def cmpTable (tag : String) (d : Nat) (given : List Nat) : String :=
   let model := clmoModel d
   if model.length ≠ given.length then s!"{tag} {d} len {model.length} {given.length}" else
-  match (List.range model.length).find? fun i => model.getD i 0 ≠ given.getD i 0 with
-  | some i => s!"{tag} {d} diff {i} {model.getD i 0} {given.getD i 0}"
+  match firstDiff model given 0 with
+  | some (i, a, b) => s!"{tag} {d} diff {i} {a} {b}"
   | none => s!"{tag} {d} ok {model.length}"
 
 def small0 (c : GQ) : Bool := c = 0
